@@ -12,6 +12,16 @@ Fixpoint sos (s : String.string) : str :=
   | String.String a r => Ascii.N_of_ascii a :: sos r
   end.
 
+(** Long integers are written in a shard as a decimal string (Coq's own numeral notation is quadratic
+    on thousand-digit literals); [zdec] reads it by Horner's rule. *)
+Fixpoint zdec_go (s : String.string) (acc : Z) : Z :=
+  match s with
+  | String.EmptyString => acc
+  | String.String a r => zdec_go r (10 * acc + (Z.of_N (Ascii.N_of_ascii a) - 48))%Z
+  end.
+Definition zdec (neg : bool) (s : String.string) : Z :=
+  let v := zdec_go s 0%Z in if neg then (- v)%Z else v.
+
 Definition opt_jv_eqb (a b : option jv) : bool :=
   match a, b with
   | Some x, Some y => jv_eqb x y
